@@ -1,23 +1,26 @@
 (* C07 - typehint-derived validators are sound and complete for the annotated type.
-   PARTIAL: soundness (and, in signature mode, strictness with identical payloads) are theorems
-   for every annotation without record classes (scalars, Any, None, naked and parametrised
-   list / set / dict / tuple forms, unions incl. Optional and |, Literal, Maybe, Required /
-   NotRequired, arbitrary classes; any nesting). Record classes: the shape of the derived
-   validator is a theorem here, its behaviour is C04's theorems; completeness and payload
-   identity in default mode are tied by the differential run against an independent type oracle. *)
+   PARTIAL: soundness is a theorem for the whole grammar, record classes included; strictness
+   with identical payloads (signature mode, C09_strict) for annotations without record classes;
+   completeness and payload identity in default mode are tied by the differential run against an
+   independent type oracle. *)
 From Coq Require Import ZArith List Bool.
-From KV Require Import Base.PyVal Base.Prims Model.Validator Model.Sem Model.Derive Proofs.DeriveP Corr.UserLib.
+From KV Require Import Base.PyVal Base.Prims Model.Validator Model.Sem Model.Derive Proofs.DeriveP Proofs.DeriveR Corr.UserLib.
 Import ListNotations.
 
-(* Valid(w) only if w is a value of the annotated type - in both resolution modes, for every
-   environment whose stdlib constructors return their own type, every input and every fuel *)
+(* Valid(w) only if w is a value of the annotated type - for EVERY annotation of the grammar
+   without user validators (okann: scalars, Any, None, list / set / dict / tuple forms, unions,
+   Literal, Maybe, Required / NotRequired, arbitrary classes, dataclasses, NamedTuples, TypedDicts,
+   any nesting; a record node needs string field names without repetition, the class table
+   listing the same names, and declared defaults of the field's type - they are used on trust),
+   in both resolution modes, for every environment whose stdlib constructors return their own
+   type, every input and every fuel *)
 Theorem C07_sound :
   forall (E : env),
     (forall k x y, oracle E k x = Some y -> exact_type y (okind_type k) = true) ->
-    forall a, plain a = true ->
+    forall a, okann E a = true ->
     forall sig v, derive sig a = Ok v ->
     forall fuel x w, run E Sync fuel v x = OValid w -> has_type a w = true.
-Proof. exact derive_sound. Qed.
+Proof. exact derive_sound_all. Qed.
 Print Assumptions C07_sound.
 
 (* Annotated[T, validator]: the validator is used as it is *)
@@ -42,7 +45,7 @@ Section Example.
   Definition T := AUnion [AList (AScalar KDecimal); ATupleN [AScalar KInt; ALiteral [VStr [97]; VStr [98]]]; ANone].
   Definition E0 : env := mk_env [] [] [(OkDecimal, (VStr [49], Some (VDecimal (DFin false 1 0))))] [] [] [].
   Example C07_nonvacuous :
-    plain T = true /\
+    okann E0 T = true /\
     exists v, derive false T = Ok v /\
               run E0 Sync 6 v (VList [VStr [49]]) = OValid (VList [VDecimal (DFin false 1 0)]) /\
               has_type T (VList [VDecimal (DFin false 1 0)]) = true /\
@@ -50,3 +53,22 @@ Section Example.
               (exists i, run E0 Sync 6 v (VTuple [VBool true; VStr [98]]) = OInvalid i).
   Proof. split; [reflexivity|]. eexists. repeat split; try (vm_compute; reflexivity). eexists. vm_compute. reflexivity. Qed.
 End Example.
+
+(* a TypedDict and a dataclass with a default, nested *)
+Section Example2.
+  Open Scope Z_scope.
+  Definition sa := VStr [97]. Definition sb := VStr [98].
+  Definition E1 : env :=
+    mk_env [Build_cls CkTyped false [(sa, None); (sb, None)];
+            Build_cls (CkData false) false [(sa, None); (sb, Some (VInt 7))]] [] [] [] [] [].
+  Definition TD := ARecord RkTyped 0%nat [(sa, (AScalar KInt, true)); (sb, (AScalar KStr, false))].
+  Definition DC := ARecord RkData 1%nat [(sa, (AList TD, true)); (sb, (AScalar KInt, false))].
+  Example C07_nonvacuous_records :
+    okann E1 DC = true /\
+    exists v, derive false DC = Ok v /\
+              run E1 Sync 8 v (VDict [(sa, VList [VDict [(sa, VInt 1)]])])
+              = OValid (VObj 1%nat [(sa, VList [VDict [(sa, VInt 1)]]); (sb, VInt 7)]) /\
+              has_type DC (VObj 1%nat [(sa, VList [VDict [(sa, VInt 1)]]); (sb, VInt 7)]) = true /\
+              (exists i, run E1 Sync 8 v (VDict [(sb, VInt 1)]) = OInvalid i).
+  Proof. split; [reflexivity|]. eexists. repeat split; try (vm_compute; reflexivity). eexists. vm_compute. reflexivity. Qed.
+End Example2.
